@@ -137,11 +137,18 @@ def run():
     uops, umeta = [], []
     for tpl in TEMPLATES:
         for name, cls in NAMES:
-            text = tpl.replace("{{", "{").replace("}}", "}").replace("{X}", name) + "\nd1 = int\n"
+            body = tpl.replace("{{", "{").replace("}}", "}").replace("{X}", name)
+            # layout 1: the rule that holds the reference comes first, helper rules after it
+            text = body + "\nd1 = int\n"
             if cls == "param-elsewhere":
                 text += "gg<T> = [T]\n"
             uops.append({"id": len(uops), "op": "parse", "cddl": text, "ast": True})
             umeta.append((tpl, name, cls, text))
+            # layout 2: a generic rule whose parameter is T, then the rule that holds the reference (scoping of generic
+            # parameters is per rule: T is not in scope there), then more rules
+            text2 = "start = any\ngg<T> = [T]\n" + body.replace("root", "holder").replace("p<", "pp<").replace("\np<T>", "\npp<T>") + "\nd1 = int\nlater<U> = [U]\n"
+            uops.append({"id": len(uops), "op": "parse", "cddl": text2, "ast": True})
+            umeta.append((tpl + " (after a generic rule)", name, cls, text2))
     # plus random schemas with one reference renamed to an undefined / socket name
     for k in range(150 if t == "quick" else 3000):
         g = G.Gen(rnd, fmt="cbor", profile="shared")
